@@ -841,7 +841,10 @@ namespace xsimd
         {
             using batch_type = batch<std::complex<T>, A>;
             using real_batch = typename batch_type::real_batch;
-            real_batch d = cos(2 * z.real()) + cosh(2 * z.imag());
+            // cos(2x) + cosh(2y) == 2 * (cos(x)^2 + sinh(y)^2); the latter does not cancel next to the poles
+            real_batch c = cos(z.real());
+            real_batch s = sinh(z.imag());
+            real_batch d = 2 * (c * c + s * s);
             batch_type winf(constants::infinity<real_batch>(), constants::infinity<real_batch>());
             real_batch wreal = sin(2 * z.real()) / d;
             real_batch wimag = sinh(2 * z.imag());
@@ -959,7 +962,10 @@ namespace xsimd
             auto x = z.real();
             auto y = z.imag();
             real_batch two(2);
-            auto d = cosh(two * x) + cos(two * y);
+            // cosh(2x) + cos(2y) == 2 * (sinh(x)^2 + cos(y)^2); the latter does not cancel next to the poles
+            auto s = sinh(x);
+            auto c = cos(y);
+            auto d = two * (s * s + c * c);
             return { sinh(two * x) / d, sin(two * y) / d };
         }
 
